@@ -18,7 +18,7 @@ def check_fields(buf, fmt, vals, base=0, where=""):
 # --------------------------------------------------------------------------------------------------------
 # TransportIDs as dictionaries (the library's input format) and what their bytes must be
 
-def transport_id_dict(rng, kind=None):
+def transport_id_dict(rng, kind=None, long_name=False):
     kind = kind or rng.choice(["fcp", "sas", "iscsi0", "iscsi1", "srp", "sbp", "sop"])
     rb = lambda n: bytes(rng.randrange(256) for _ in range(n))
     if kind == "fcp":
@@ -36,18 +36,21 @@ def transport_id_dict(rng, kind=None):
     if kind == "sop":
         n = rb(8)
         return dict(protocol_id=0xA, routing_id=n), bytes([0xA]) + bytes(3) + n + bytes(12)
-    ln = rng.choice([1, 2, 3, 4, 5, 6, 7, 8, 20, 21, 22, 23, 40])
+    # ... up to the longest iSCSI name there is (223 bytes, RFC 7143): with prefix 24 + 199
+    ln = rng.choice([1, 2, 3, 4, 5, 6, 7, 8, 20, 21, 22, 23, 40, 150, 182, 183, 190, 199])
     alphabet = "abcdefghijklmnopqrstuvwxyz0123456789.-:"
     if rng.random() < 0.15:
         alphabet += "éü中"                       # iSCSI names are UTF-8 (RFC 3722)
     # also names so short that the whole TransportID stays below 24 bytes (iqn.1986-03.io, eui.02004567A425678D minus a few)
     prefix = rng.choice(["iqn.2001-04.com.example:", "iqn.2001-04.com.example:", "iqn.1986-03.io:", "iqn.2005-03.a", "eui."])
+    if long_name:
+        prefix, ln, alphabet = "iqn.2001-04.com.example:", rng.choice([183, 190, 199]), "abcdefghijklmnopqrstuvwxyz0123456789.-:"
     name = prefix + "".join(rng.choice(alphabet) for _ in range(ln if len(prefix) > 20 else rng.choice([0, 1, 2, 3, 4, 5, 9, 12])))
     d = dict(protocol_id=5, iscsi_name=name)
     s = name
     fmt = 0
     if kind == "iscsi1":
-        isid = "%012x" % rng.randrange(1 << 48)
+        isid = rng.choice(["%012x", "%012X", "%x"]) % rng.randrange(1 << 48)          # hex constants may use capitals (RFC 3720)
         d.update(tpid_format=1, iscsi_initiator_session_id=isid)
         s = name + ",i,0x" + isid
         fmt = 1
@@ -154,7 +157,7 @@ def header_keys(ten):
 def cases(rng, n_each=8):
     import spec_resp
     out = []
-    for _ in range(n_each):
+    for case_no in range(n_each):
         # ---- MODE SELECT(6) / (10)
         for ten in (False, True):
             pgs = mode_pages(rng)
@@ -216,7 +219,8 @@ def cases(rng, n_each=8):
         # REGISTER AND MOVE
         vals = dict(reservation_key=rand_value(rng, 64), service_action_reservation_key=rand_value(rng, 64),
                     unreg=rng.randrange(2), aptpl=rng.randrange(2), relative_target_port_id=rand_value(rng, 16))
-        tid = transport_id_dict(rng)
+        # every fourth REGISTER AND MOVE carries an iSCSI TransportID with a session id and one of the longest names there are
+        tid = transport_id_dict(rng, kind="iscsi1", long_name=True) if case_no % 4 == 1 else transport_id_dict(rng)
 
         def chk(cdb, dout, vals=vals, tid=tid):
             if int.from_bytes(cdb[5:9], "big") != len(dout):
